@@ -28,8 +28,19 @@ def plan(tier, seed):
     return [{'seqs': 900, 'n_each': [60, 140]} for _ in range(64)]
 
 
-def gen_step(rng, g, prev=None):
+def gen_step(rng, g, prev=None, qualify=None):
     """-> (text, ast or None when malformed)"""
+    text, mt = gen_step_(rng, g, prev)
+    if qualify is not None and mt is not None and text not in ('*', '!'):
+        # a session about one connection: every pattern carries its name
+        for p in mt['pos'] + mt['neg']:
+            if not joinref.is_any(p):
+                p['conn'] = {'w': qualify}
+        text = mgen.Render().matcher(mt)
+    return text, mt
+
+
+def gen_step_(rng, g, prev=None):
     r = rng.random()
     if prev and rng.random() < 0.15:
         # a pattern that prints like an earlier one but means something else (quoted string vs bare word / number)
@@ -89,24 +100,56 @@ def compare(ctx, state, sel, projs, what, case):
     return n_some
 
 
+def start_options(rng, g):
+    """-f / -b given on the command line, through the real option parser -> (argv options, matchers, model states)"""
+    from frontends.tui.arguments import parse_args
+    opts = []
+    states = {'filter': ('const', True), 'breakpoint': ('const', False)}
+    for flag, kind in (('-f', 'filter'), ('-b', 'breakpoint')):
+        if rng.random() < 0.5:
+            text, ast = gen_step(rng, g)
+            if ast is None:
+                continue
+            opts += [flag, text]
+            states[kind] = joinref.from_matcher(ast)
+    if not opts:
+        return [], None, states
+    try:
+        args = parse_args(['main.py'] + opts + ['-l', 'x.log'])
+    except RuntimeError:
+        return [], None, {'filter': ('const', True), 'breakpoint': ('const', False)}
+    return opts, (args.filter_matcher, args.stop_matcher), states
+
+
+def start_matchers(opts):
+    if not opts:
+        return None
+    from frontends.tui.arguments import parse_args
+    args = parse_args(['main.py'] + list(opts) + ['-l', 'x.log'])
+    return (args.filter_matcher, args.stop_matcher)
+
+
 def run_sequence(ctx, rng, g, lines, projs):
-    s = Session()
+    opts, matchers, states = start_options(rng, g) if rng.random() < 0.3 else ([], None, {'filter': ('const', True), 'breakpoint': ('const', False)})
+    qualify = rng.choice(sorted(set(p['conn'] for p in projs))) if rng.random() < 0.2 else None
+    s = Session(matchers=matchers)
     s.feed([l + '\n' for l in lines])
     msgs = list(s.ctl.all_messages)
-    states = {'filter': ('const', True), 'breakpoint': ('const', False)}
     cmds = []
+    if opts:
+        ctx.count('sequences_with_start_options')
     interesting = 0
     wellformed = 0
     prev = {'filter': [], 'breakpoint': []}
     for step in range(rng.randint(1, 12)):
         kind = rng.choice(['filter', 'filter', 'breakpoint'])
-        text, ast = gen_step(rng, g, prev[kind])
+        text, ast = gen_step(rng, g, prev[kind], qualify)
         if ast is not None:
             prev[kind].append(ast)
         spelled = rng.choice({'filter': ['filter', 'f', 'wlf', 'wl filter', 'fil'], 'breakpoint': ['breakpoint', 'b', 'wlb', 'w b', 'break']}[kind])
         cmd = spelled + ' ' + text
         cmds.append(cmd)
-        case = {'lines': lines, 'commands': list(cmds)}
+        case = {'lines': lines, 'commands': list(cmds), 'options': opts}
         before = {'filter': tool_sel(s.ctl.display_matcher, msgs), 'breakpoint': tool_sel(s.ctl.stop_matcher, msgs)}
         n0 = len(s.events)
         try:
@@ -150,7 +193,7 @@ def run_sequence(ctx, rng, g, lines, projs):
     if wellformed >= 2 and interesting:
         ctx.sig(h64(cmds))
     # ---- boundary: prime a fresh session with the same commands, then stream the universe ---------------
-    s2 = Session()
+    s2 = Session(matchers=start_matchers(opts))
     for c in cmds:
         s2.command(c)
     n0 = len(s2.events)
@@ -162,7 +205,7 @@ def run_sequence(ctx, rng, g, lines, projs):
         items = [outline.parse_line(p) for k, p in per.get(i, []) if k == 'out']
         shown.append(any(it['kind'] == 'msg' for it in items))
         stopped.append(any(it['kind'] == 'stopped' for it in items))
-    case = {'lines': lines, 'commands': list(cmds), 'boundary': True}
+    case = {'lines': lines, 'commands': list(cmds), 'boundary': True, 'options': opts}
     compare(ctx, states['filter'], shown, projs, 'live view after the whole sequence', case)
     compare(ctx, states['breakpoint'], stopped, projs, '`Stopped at` notices after the whole sequence', case)
     ctx.count('boundary_runs')
@@ -191,7 +234,7 @@ def run(ctx, spec):
 
 def replay(ctx, case):
     env.setup()
-    s = Session()
+    s = Session(matchers=start_matchers(case.get('options')))
     if case.get('boundary'):
         for c in case['commands']:
             s.command(c)
